@@ -108,6 +108,17 @@ def run_property(modname: str, tier: str, seed: int, replay: str | None = None) 
     rng = random.Random(seed * 1000003 + 17)
     cases = list(mod.cases(rng, tier))
     results = evaluate_parallel(mod, cases)
+    # shared foundations this property's model rests on (e.g. the filter-iterator closed form F6):
+    # their correspondence runs are part of the tie; a disagreement is a 'model' finding
+    for fname in getattr(mod, 'FOUNDATIONS', []):
+        fmod = importlib.import_module(fname)
+        frng = random.Random(seed * 31337 + 3)
+        fcases = list(fmod.cases(frng, tier))
+        fres = evaluate_parallel(fmod, fcases)
+        for c in fcases:
+            c.setdefault('foundation', fname)
+        cases += fcases
+        results += fres
 
     broken = (not lean['ok']) or any(f['kind'] == 'model' for r in results for f in r['findings'])
     have_prop = any(f['kind'] == 'property' for r in results for f in r['findings'])
